@@ -108,56 +108,57 @@ theorem junctions_inside : ∀ (ex : List Iv), SD ex → WFl ex → ∀ f l, ex.
 /-! ### the loaded window answers like the whole chromosome -/
 
 /-- a read as the loader sees it, with the hypotheses the pipeline guarantees: both exon lists sorted, disjoint, well
-    formed (C16 / C14) and inside the chromosome -/
-def ReadOk (chrLen : Int) (r : ReadSpan) : Prop :=
+    formed (C16 / C14) and starting at a base ≥ 1.  (Nothing about the END of the chromosome: a window or a read reaching
+    beyond the last base is clamped by the slice; the run-time monitor of the C18 pipeline oracle nevertheless checks
+    `end ≤ chromosome length` too.) -/
+def ReadOk (r : ReadSpan) : Prop :=
   SD r.exons ∧ WFl r.exons ∧ SD r.correctedExons ∧ WFl r.correctedExons ∧
-  (∀ e ∈ r.exons, 1 ≤ e.1 ∧ e.2 ≤ chrLen) ∧ (∀ e ∈ r.correctedExons, 1 ≤ e.1 ∧ e.2 ≤ chrLen)
+  (∀ e ∈ r.exons, 1 ≤ e.1) ∧ (∀ e ∈ r.correctedExons, 1 ≤ e.1)
 
-theorem extendedWindow_bounds (chrLen : Int) (reads : List ReadSpan) : ∀ (w : Iv), 1 ≤ w.1 → w.2 ≤ chrLen →
-    (∀ r ∈ reads, ReadOk chrLen r) → 1 ≤ (extendedWindow w reads).1 ∧ (extendedWindow w reads).2 ≤ chrLen := by
+theorem extendedWindow_bounds (reads : List ReadSpan) : ∀ (w : Iv), 1 ≤ w.1 →
+    (∀ r ∈ reads, ReadOk r) → 1 ≤ (extendedWindow w reads).1 := by
   induction reads with
-  | nil => intro w h1 h2 _; simpa [extendedWindow] using ⟨h1, h2⟩
+  | nil => intro w h1 _; simpa [extendedWindow] using h1
   | cons r t ih =>
-    intro w h1 h2 hok
+    intro w h1 hok
     have hr := hok r (by simp)
-    have step : ∀ (w : Iv) (ex : List Iv), 1 ≤ w.1 → w.2 ≤ chrLen → (∀ e ∈ ex, 1 ≤ e.1 ∧ e.2 ≤ chrLen) →
-        1 ≤ (widenBy w ex).1 ∧ (widenBy w ex).2 ≤ chrLen := by
-      intro w ex h1 h2 hb
+    have step : ∀ (w : Iv) (ex : List Iv), 1 ≤ w.1 → (∀ e ∈ ex, 1 ≤ e.1) → 1 ≤ (widenBy w ex).1 := by
+      intro w ex h1 hb
       unfold widenBy
       split
       · rename_i f l hf hl
         have := hb f (List.mem_of_mem_head? hf)
-        have := hb l (List.mem_of_getLast? hl)
         simp only; omega
-      · exact ⟨h1, h2⟩
-    obtain ⟨a1, a2⟩ := step w r.exons h1 h2 hr.2.2.2.2.1
-    obtain ⟨b1, b2⟩ := step _ r.correctedExons a1 a2 hr.2.2.2.2.2
-    have := ih _ b1 b2 (fun r' hr' => hok r' (List.mem_cons_of_mem _ hr'))
+      · exact h1
+    have a1 := step w r.exons h1 hr.2.2.2.2.1
+    have b1 := step _ r.correctedExons a1 hr.2.2.2.2.2
+    have := ih _ b1 (fun r' hr' => hok r' (List.mem_cons_of_mem _ hr'))
     simpa [extendedWindow] using this
 
-/-- **loaded_flag_is_chromosome_flag** (after the fix, full strength): for every header window inside the chromosome and
-    every storage of well-formed reads, the gene info the loader hands on answers the canonical test for the introns of
-    every read of the storage — raw or corrected alignment, either strand — exactly as a look-up on the whole
-    chromosome does; the memo starts empty.  (Novel transcript models of the region are built from the corrected
-    introns of these reads: C04 `novel_introns_observed`.) -/
-theorem loaded_flag_is_chromosome_flag (chr : Seq) (hdr : Iv) (reads : List ReadSpan) (st : Strand)
-    (hh : hdr.2 ≤ chr.length) (hok : ∀ r ∈ reads, ReadOk chr.length r) :
-    ∀ r ∈ reads, ∀ ex, (ex = r.exons ∨ ex = r.correctedExons) →
-      pureAnswer (loadRegion chr hdr reads).1 (junctionsFromBlocks ex) st = pureAnswer ⟨chr, 1⟩ (junctionsFromBlocks ex) st := by
-  intro r hr ex hex
+/-- **loaded_flag_for_observed_introns** (after the fix, full strength): for EVERY header window (also one that ends
+    beyond the contig: a GTF gene end larger than the FASTA record), every storage of well-formed reads and every list of
+    introns each of which occurs in the raw or corrected alignment of SOME kept read — the intron chain of one read, or
+    the chain of a novel transcript model, whose introns are corrected introns of the region's reads (C04
+    `novel_introns_observed`: `Observed reads i`) possibly taken from different reads — the gene info the loader hands on
+    answers the canonical test exactly as a look-up on the whole chromosome does, on either strand. -/
+theorem loaded_flag_for_observed_introns (chr : Seq) (hdr : Iv) (reads : List ReadSpan) (st : Strand)
+    (hok : ∀ r ∈ reads, ReadOk r) (introns : List Iv)
+    (hobs : ∀ it ∈ introns, ∃ r ∈ reads, ∃ ex, (ex = r.exons ∨ ex = r.correctedExons) ∧ it ∈ junctionsFromBlocks ex) :
+    pureAnswer (loadRegion chr hdr reads).1 introns st = pureAnswer ⟨chr, 1⟩ introns st := by
   have hw0 : (1 : Int) ≤ (max 1 hdr.1, hdr.2).1 := by simp only; omega
   have hmono := extendedWindow_mono reads (max 1 hdr.1, hdr.2)
-  have hbnd := extendedWindow_bounds chr.length reads (max 1 hdr.1, hdr.2) hw0 hh hok
-  have hrok := hok r hr
-  have hsdwf : SD ex ∧ WFl ex := by
-    rcases hex with rfl | rfl
-    · exact ⟨hrok.1, hrok.2.1⟩
-    · exact ⟨hrok.2.2.1, hrok.2.2.2.1⟩
-  -- every intron of `ex` is inside the extended window
-  have hin : ∀ it ∈ junctionsFromBlocks ex,
+  have hbnd := extendedWindow_bounds reads (max 1 hdr.1, hdr.2) hw0 hok
+  -- every observed intron is inside the extended window
+  have hin : ∀ it ∈ introns,
       (extendedWindow (max 1 hdr.1, hdr.2) reads).1 ≤ it.1 ∧ it.1 + 1 ≤ (extendedWindow (max 1 hdr.1, hdr.2) reads).2 ∧
       (extendedWindow (max 1 hdr.1, hdr.2) reads).1 < it.2 ∧ it.2 ≤ (extendedWindow (max 1 hdr.1, hdr.2) reads).2 := by
-    intro it hit
+    intro it hit0
+    obtain ⟨r, hr, ex, hex, hit⟩ := hobs it hit0
+    have hrok := hok r hr
+    have hsdwf : SD ex ∧ WFl ex := by
+      rcases hex with rfl | rfl
+      · exact ⟨hrok.1, hrok.2.1⟩
+      · exact ⟨hrok.2.2.1, hrok.2.2.2.1⟩
     cases hne : ex with
     | nil => rw [hne] at hit; simp [junctionsFromBlocks] at hit
     | cons a t =>
@@ -170,23 +171,31 @@ theorem loaded_flag_is_chromosome_flag (chr : Seq) (hdr : Iv) (reads : List Read
   unfold loadRegion
   simp only
   split
-  · exact (flag_independent_of_region chr _ _ (junctionsFromBlocks ex) st hbnd.1 hbnd.2 hin).1
+  · exact (flag_independent_of_region chr _ _ introns st hbnd hin).1
   · rename_i hnot
     -- nothing reaches beyond the header window: it is the extended window
     have e1 : (extendedWindow (max 1 hdr.1, hdr.2) reads).1 = max 1 hdr.1 := by simp only at hmono; omega
     have e2 : (extendedWindow (max 1 hdr.1, hdr.2) reads).2 = hdr.2 := by simp only at hmono; omega
     by_cases hs : hdr.1 ≤ 1
     · rw [region_start_clamped chr hdr.1 hdr.2 hs]
-      refine (flag_independent_of_region chr 1 hdr.2 (junctionsFromBlocks ex) st (by omega) hh ?_).1
+      refine (flag_independent_of_region chr 1 hdr.2 introns st (by omega) ?_).1
       intro it hit
       have := hin it hit
       rw [e1, e2] at this
       omega
-    · refine (flag_independent_of_region chr hdr.1 hdr.2 (junctionsFromBlocks ex) st (by omega) hh ?_).1
+    · refine (flag_independent_of_region chr hdr.1 hdr.2 introns st (by omega) ?_).1
       intro it hit
       have := hin it hit
       rw [e1, e2] at this
       omega
+
+/-- **loaded_flag_is_chromosome_flag**: the case "the introns of one kept read" (raw or corrected alignment) — the
+    `Canonical=` field of every read line of the second pass; no hypothesis on the header window -/
+theorem loaded_flag_is_chromosome_flag (chr : Seq) (hdr : Iv) (reads : List ReadSpan) (st : Strand)
+    (hok : ∀ r ∈ reads, ReadOk r) :
+    ∀ r ∈ reads, ∀ ex, (ex = r.exons ∨ ex = r.correctedExons) →
+      pureAnswer (loadRegion chr hdr reads).1 (junctionsFromBlocks ex) st = pureAnswer ⟨chr, 1⟩ (junctionsFromBlocks ex) st :=
+  fun r hr ex hex => loaded_flag_for_observed_introns chr hdr reads st hok _ (fun _ hit => ⟨r, hr, ex, hex, hit⟩)
 
 /-! ### the original behaviour: header window = gene span -/
 
@@ -204,15 +213,28 @@ theorem gene_span_window_witness :
     pureAnswer ⟨witnessSeq, 1⟩ (junctionsFromBlocks exRead.exons) .plus = true := by
   decide
 
--- non-vacuity of `loaded_flag_is_chromosome_flag`: the concrete read meets `ReadOk`, the header lies inside the chromosome
-example : ReadOk witnessSeq.length exRead ∧ ((12, 18) : Iv).2 ≤ witnessSeq.length := by
-  refine ⟨⟨?_, ?_, ?_, ?_, ?_, ?_⟩, by decide⟩
+-- non-vacuity of `loaded_flag_is_chromosome_flag`: the concrete read meets `ReadOk`
+example : ReadOk exRead := by
+  refine ⟨?_, ?_, ?_, ?_, ?_, ?_⟩
   · exact ⟨by decide, trivial⟩
   · intro r hr; simp [exRead] at hr; rcases hr with rfl | rfl <;> decide
   · exact ⟨by decide, trivial⟩
   · intro r hr; simp [exRead] at hr; rcases hr with rfl | rfl <;> decide
   · intro r hr; simp [exRead] at hr; rcases hr with rfl | rfl <;> decide
   · intro r hr; simp [exRead] at hr; rcases hr with rfl | rfl <;> decide
+
+-- `loaded_flag_for_observed_introns`: a chain whose introns come from two different reads of the region
+example : ∀ it ∈ [((5, 14) : Iv)], ∃ r ∈ [exRead, { exons := [(16, 18)], correctedExons := [(16, 18)] }],
+    ∃ ex, (ex = r.exons ∨ ex = r.correctedExons) ∧ it ∈ junctionsFromBlocks ex := by
+  intro it hit
+  simp only [List.mem_singleton] at hit
+  subst hit
+  exact ⟨exRead, by simp, exRead.exons, Or.inl rfl, by decide⟩
+
+-- a header window that ends far beyond the 18-base contig (the case the former hypothesis `hdr.2 ≤ chr.length` excluded)
+example : ((12, 1000) : Iv).2 > witnessSeq.length ∧
+    pureAnswer (loadRegion witnessSeq (12, 1000) [exRead]).1 (junctionsFromBlocks exRead.exons) .plus = true ∧
+    (loadRegion witnessSeq (12, 1000) [exRead]).1.refRegion = witnessSeq := by decide
 
 -- a region whose reads stay inside the header window keeps that window (no reload)
 example : (loadRegion witnessSeq (3, 16) [{ exons := [(4, 4), (15, 16)], correctedExons := [] }]).1.start = 3 := by decide
